@@ -6,7 +6,7 @@ for n, mb, tiers in ((3, 4, ("quick", "thorough")), (4, 6, ("quick", "thorough")
     for side in ("L1", "L2"):
         OBLIGATIONS.append(dict(
             name="C12.b %s bridge: %d L1 info updates in blocks 1..%d (several per block allowed): the index lookup returns a covering index, and fails iff none covers the deposit" % (side, n, mb),
-            harness=B + "ZZVerif_C12_Index" + side, params={"N": n, "MAXBLK": mb}, tiers=tiers, reach=["found", "notcovered"], time_limit_s=3000,
+            harness=B + "ZZVerif_C12_Index" + side, params={"N": n, "MAXBLK": mb}, tiers=tiers, reach=["found", "notcovered"], time_limit_s=900 if "quick" in tiers else 3000,
             bounds="%d updates, every non-decreasing placement in blocks 1..%d, every non-decreasing last-deposit index (8 bit), every deposit count (8 bit)%s" % (
                 n, mb, "; updates that leave the mainnet exit root unchanged" if side == "L1" else "")))
 for net, q, idx, dc, tiers in ((2, 0, 1, 1, ("quick", "thorough")), (2, 2, 1, 0, ("quick", "thorough")), (2, 2, 0, 1, ("quick", "thorough")), (2, 3, 1, 0, ("quick", "thorough")),
